@@ -351,6 +351,20 @@ pub fn c4() -> OptionParser<(u32, Cmd1)> {
     construct!(t, cmd).to_options()
 }
 
+/// an optional subcommand whose failures are caught (`optional().catch()`)
+pub fn c5() -> OptionParser<(bool, Option<Cmd1>)> {
+    let v = short('v').long("verbose").switch();
+    let cmd = c1_add().command("add").optional().catch();
+    construct!(v, cmd).to_options()
+}
+
+/// a repeated subcommand
+pub fn c6() -> OptionParser<(bool, Vec<Cmd1>)> {
+    let v = short('v').long("verbose").switch();
+    let cmd = c1_rm().command("rm").many();
+    construct!(v, cmd).to_options()
+}
+
 /// switch declared before a repeated argument (the switch's consumption precedes the loop)
 pub fn g4() -> OptionParser<(bool, Vec<u32>, u32)> {
     let a = short('a').long("alpha").switch();
